@@ -3,7 +3,7 @@
    [H] is xxh3.Hash128 as the 16 bytes stored in the file: an arbitrary function with 16-byte results. *)
 From Coq Require Import ZArith List Bool Lia.
 From SH Require Import Common.Wrap Chunked.Model Chunked.ProofsMap Chunked.ProofsCache Chunked.ProofsCodec
-  Chunked.ProofsHist Chunked.Proofs Chunked.ProofsStore Chunked.ProofsSaveLoad.
+  Chunked.ProofsHist Chunked.Proofs Chunked.ProofsStore Chunked.ProofsSaveLoad Chunked.ProofsAny Chunked.ProofsFlip.
 Import ListNotations.
 Open Scope Z_scope.
 
@@ -47,6 +47,52 @@ Theorem C21_corrupt_yields_prefix_or_collision_partial :
   read_file H magic (dencode H zero_hash magic ds) = (st', bs', r) ->
   (exists n, bs' = firstn n (map d_b ds)) \/ (exists x y : bytes, x <> y /\ H x = H y).
 Proof. exact damaged_read_prefix_or_collision. Qed.
+
+(* "... corrupted file ... never a damaged item", ARBITRARY damage (size fields included): for EVERY byte string [f']
+   whatever — in particular every modification of a saved file — the reader returns a prefix of the saved bodies [bs]
+   followed by end/error, or it [diverges]: after a (possibly empty) prefix of saved bodies it accepted a body b' that
+   is not the saved one, for which the reader's two bounds checks held (|b'| <= ChunkSize, frame inside the file) and
+   the file holds, right after b', exactly H(previous hash ++ magic ++ size ++ b').  In that case either this is an
+   explicit collision with the saved chunk (different input, same 128-bit hash), or the 16 bytes in the damaged file
+   differ from the saved hash, i.e. the damage produced a NEW correct hash value (next theorem: for one changed byte
+   this can only be the size-field case).  With H uninterpreted nothing stronger is true: another validly written
+   file is also "a modification of all bytes". *)
+Theorem C21_any_file_prefix_or_divergence :
+  forall (H : bytes -> bytes), (forall x, length (H x) = 16%nat) ->
+  forall magic bs f' st' bs' r,
+  bytes_ok f' -> 0 <= magic < two32 ->
+  read_file H magic f' = (st', bs', r) ->
+  ((exists n, bs' = firstn n bs) \/ diverges H magic f' zero_hash [] bs bs') /\
+  (r = REnd \/ r = RChunk [] \/ exists e, r = RErr e).
+Proof. exact any_file_prefix_or_diverges. Qed.
+
+(* every bit flip (any change of one byte) at EVERY position of a saved file, size fields included: the reader returns a
+   prefix of the saved bodies then end/error, or a collision with a saved chunk is exhibited, or the changed byte is in
+   the size field of chunk i and the new size s' passed both bounds checks of ReadNext (s' <= ChunkSize, frame inside
+   the file) and the 16 bytes of the SAVED file found s' bytes after the header equal the hash of the bytes before them *)
+Theorem C21_single_byte_change_prefix_or_collision_or_size_accident :
+  forall (H : bytes -> bytes), (forall x, length (H x) = 16%nat) ->
+  forall magic bs a c c' z st' bs' r,
+  0 <= magic < two32 -> Forall body_ok bs ->
+  encode H zero_hash magic bs = a ++ c :: z -> c' <> c -> bytes_ok (a ++ c' :: z) ->
+  read_file H magic (a ++ c' :: z) = (st', bs', r) ->
+  ((exists n, bs' = firstn n bs) \/ saved_collision H magic bs \/ size_field_accident H magic bs (zlen a)) /\
+  (r = REnd \/ r = RChunk [] \/ exists e, r = RErr e).
+Proof. exact single_byte_change. Qed.
+
+(* the bounds of the scratch buffer made explicit (None = Go's "slice bounds out of range" panic): with the hard-limit
+   test `s > ChunkSize` ReadNext never slices beyond the buffer, on any file and in any state ... *)
+Theorem C21_reader_never_slices_beyond_scratch :
+  forall (H : bytes -> bytes) magic st, read_next_b H true magic st = Some (read_next H magic st).
+Proof. exact read_next_never_out_of_bounds. Qed.
+
+(* ... and without that test (only the file-size test left) a size field above ChunkSize that still fits into the
+   file makes it slice beyond the buffer, where the code as it is answers "overflows hard limit" *)
+Theorem C21_hard_limit_needed :
+  forall (H : bytes -> bytes),
+  read_next_b H false 5 (open_slice (oversize_file 5)) = None /\
+  snd (read_next H 5 (open_slice (oversize_file 5))) = RErr EBodyLimit.
+Proof. exact hard_limit_needed. Qed.
 
 (* the file with no damage is the saved file *)
 Theorem C21_undamaged_is_saved_file :
@@ -181,4 +227,17 @@ Proof.
   split; [vm_compute; reflexivity|]. split; [vm_compute; reflexivity|]. split; [vm_compute; reflexivity|].
   split; [repeat constructor; unfold body_ok, zlen, ChunkSize; simpl; lia|].
   unfold dframe_ok, zlen, ChunkSize; simpl; lia.
+Qed.
+
+(* one changed byte: the premises of C21_single_byte_change are satisfiable; a change in the size field of the first
+   chunk (byte 4) and one in the body of the second chunk both leave a prefix *)
+Example C21_nonvacuous_single_byte :
+  let f := encode exH zero_hash 5 [[1; 2; 3]; [4; 5; 6]] in
+  f = firstn 4 f ++ 3 :: skipn 5 f /\ bytes_ok (firstn 4 f ++ 2 :: skipn 5 f) /\
+  snd (fst (read_file exH 5 (firstn 4 f ++ 2 :: skipn 5 f))) = [] /\
+  f = firstn 36 f ++ 5 :: skipn 37 f /\
+  snd (fst (read_file exH 5 (firstn 36 f ++ 9 :: skipn 37 f))) = [[1; 2; 3]].
+Proof.
+  cbv zeta. split; [vm_compute; reflexivity|]. split; [apply bytes_ok_b; vm_compute; reflexivity|].
+  split; [vm_compute; reflexivity|]. split; vm_compute; reflexivity.
 Qed.
